@@ -844,17 +844,22 @@ impl Prioritize {
                             }))
                         }
                         Some(Frame::PushPromise(pp)) => {
-                            let mut pushed =
-                                stream.store_mut().find_mut(&pp.promised_id()).unwrap();
-                            pushed.is_pending_push = false;
-                            // Transition stream from pending_push to pending_open
-                            // if possible
-                            if !pushed.pending_send.is_empty() {
-                                if counts.can_inc_num_send_streams() {
-                                    counts.inc_num_send_streams(&mut pushed);
-                                    self.pending_send.push(&mut pushed);
-                                } else {
-                                    self.queue_open(&mut pushed);
+                            // The promised stream is gone already if the user
+                            // dropped its handle and it could not be kept in
+                            // the reset memory.
+                            if let Some(mut pushed) =
+                                stream.store_mut().find_mut(&pp.promised_id())
+                            {
+                                pushed.is_pending_push = false;
+                                // Transition stream from pending_push to pending_open
+                                // if possible
+                                if !pushed.pending_send.is_empty() {
+                                    if counts.can_inc_num_send_streams() {
+                                        counts.inc_num_send_streams(&mut pushed);
+                                        self.pending_send.push(&mut pushed);
+                                    } else {
+                                        self.queue_open(&mut pushed);
+                                    }
                                 }
                             }
                             Frame::PushPromise(pp)
